@@ -93,3 +93,8 @@ impl Rng {
         &xs[self.below(xs.len())]
     }
 }
+
+/// Scratch directory of this verification tree (set by vlib/common.py; /verif/work by default).
+pub fn work_dir() -> String {
+    std::env::var("VERIF_WORK").unwrap_or_else(|_| "/verif/work".to_string())
+}
